@@ -66,6 +66,7 @@ class State:
         self.contents = {}        # container term -> list of element objects known to be stored there
         self.symstore = {}        # writes through symbolic lvalues: ('fld', base, name) -> value
         self.derefs = []          # (pointer term, line, number of path conditions when dereferenced)
+        self.known = []           # (condition, value) facts that hold by construction: consulted by truth(), not path conditions
 
     def fork(self):
         s = State()
@@ -80,6 +81,7 @@ class State:
         s.contents = {k: list(v) for k, v in self.contents.items()}
         s.symstore = dict(self.symstore)
         s.derefs = list(self.derefs)
+        s.known = list(self.known)
         return s
 
     def new_obj(self, cls, origin=None):
@@ -575,6 +577,10 @@ class Sym:
                         return t[3][0]
             return None
         a, b = ends(first, ('begin', 'cbegin')), ends(last, ('end', 'cend'))
+        if a is None and isinstance(first, tuple) and first and first[0] == 'addr' and isinstance(first[1], tuple) and first[1][0] == 'fld' \
+                and isinstance(last, tuple) and len(last) == 4 and last[:3] == ('op', '+', first) and last[3][:2] == ('k', 1):
+            # [&x.item, &x.item + 1): the whole of a one-element store x (its begin()/end() were evaluated inline)
+            return first[1][1]
         return a if a is not None and a == b else None
 
     def search_summary(self, e, callee, args, st, negate=False):
@@ -610,7 +616,11 @@ class Sym:
                 t = True
                 fall = True
             if t:
-                outs.append((s2, ('addr', elem) if ptr_iter else ('iter', elem)))
+                res = ('addr', elem) if ptr_iter else ('iter', elem)
+                if ptr_iter:
+                    # an element so designated is never the end of its range
+                    s2.known.append((('op', '!=', res, last), True))
+                outs.append((s2, res))
             else:
                 fall = True
         if fall or not outs:
@@ -625,7 +635,7 @@ class Sym:
             return bool(c[1])
         if c[0] in ('obj', 'addr'):
             return True
-        for (cc, val) in st.conds:
+        for (cc, val) in st.conds + st.known:
             if cc == c:
                 return val
             if cc == ('un', '!', c):
